@@ -72,17 +72,66 @@ def gen_family(rng):
     base = {'ot': G.base_objecttype(), 'concept': dict(G.base_concept(), name='c.v'), 'source': G.base_source(),
             'et': G.base_eventtype()}
     family = []
+    chain = rng.random() < 0.4
+    prev = base
     for _ in range(3):
         o = {}
         for slot, kind, _m in SLOTS:
-            if rng.random() < 0.2:
+            if rng.random() < (0.1 if chain else 0.2):
                 o[slot] = None
                 continue
-            s = copy.deepcopy(base[slot])
-            for _ in range(rng.choice([0, 0, 1, 1, 2])):
+            # a chain: every ontology is derived from the one before (successive upgrades); otherwise from the ancestor
+            s = copy.deepcopy((prev.get(slot) or base[slot]) if chain else base[slot])
+            for _ in range(rng.choice([0, 1, 1, 2] if chain else [0, 0, 1, 1, 2])):
                 s = G.vary(rng, kind, s)
             o[slot] = s
         family.append(o)
+        prev = {slot: o.get(slot) or prev.get(slot) for slot, _k, _m in SLOTS}
+    return family, chain
+
+
+def valid_upgrade(rng, slot, spec):
+    """A definition that validly upgrades spec: one compatible change, version + 1."""
+    s = copy.deepcopy(spec)
+    s['version'] += 1
+    if slot != 'et':
+        s['free']['description'] = s['free']['description'] + ' (rev %d)' % s['version']
+        return s
+    names = [p['name'] for p in s['props']]
+    options = ['story', 'summary']
+    if len(s['relations']) < 2 and 'p' in names and 'q' in names:
+        options += ['relation', 'relation']
+    if len(s['attachments']) < 2:
+        options.append('attachment')
+    if [n for n in ('r', 's', 'w') if n not in names]:
+        options.append('property')
+    what = rng.choice(options)
+    if what in ('story', 'summary'):
+        s['free'][what] = s['free'][what] + ' (rev %d)' % s['version']
+    elif what == 'relation':
+        s['relations'].append(G.base_relation('p', 'q') if not s['relations'] else G.base_relation('q', 'p'))
+        G.fix_relations(s)
+    elif what == 'attachment':
+        have = [a['name'] for a in s['attachments']]
+        s['attachments'].append(G.base_attachment([n for n in ('att', 'att2') if n not in have][0]))
+    else:
+        prop = G.base_prop([n for n in ('r', 's', 'w') if n not in names][0], 'o.str')
+        prop['optional'] = True
+        s['props'].append(prop)
+    return s
+
+
+def gen_upgrade_chain(rng):
+    """Three ontologies, each a valid upgrade of the one before in every element it holds."""
+    cur = {'ot': G.base_objecttype(), 'concept': dict(G.base_concept(), name='c.v'), 'source': G.base_source(),
+           'et': G.base_eventtype()}
+    family = []
+    for k in range(3):
+        if k:
+            for slot, _kind, _m in SLOTS:
+                if slot == 'et' or rng.random() < 0.5:
+                    cur[slot] = valid_upgrade(rng, slot, cur[slot])
+        family.append({slot: copy.deepcopy(cur[slot]) if (slot == 'et' or rng.random() < 0.8) else None for slot, _k, _m in SLOTS})
     return family
 
 
@@ -112,14 +161,21 @@ class C11(Property):
         return ('cases: three ontologies derived from a common ancestor (object type, concept, source, event type with '
                 'sub-elements; valid upgrades, additions, omissions, invalid edits), an update order (permutation), an '
                 'update path per step (Ontology instance or lxml element); observed: resulting definitions per element or '
-                'the error, the argument ontology before/after, a second identical update, later mutation of either side; '
+                'the error, the argument ontology before/after, a second identical update, deletion from A followed by another update '
+                'from the same B, later mutation of either side; '
                 'non-trivial = at least one element differs between two of the ontologies; distinct by content')
 
     def generate(self, rng, tier):
         n = 150 if tier == 'quick' else 5000
         for i in range(n):
-            fam = gen_family(rng)
+            if i % 5 == 4:
+                # successive valid upgrades, applied in the order they were made
+                yield {'onts': gen_upgrade_chain(rng), 'order': [0, 1, 2], 'paths': [rng.choice(['object', 'xml']) for _ in range(2)]}
+                continue
+            fam, chain = gen_family(rng)
             order = rng.sample([0, 1, 2], rng.choice([2, 3]))
+            if chain and rng.random() < 0.7:
+                order = [0, 1, 2]      # successive upgrades, applied in the order they were made
             yield {'onts': fam, 'order': order, 'paths': [rng.choice(['object', 'xml']) for _ in order[1:]]}
 
     def run(self, onts, order, paths):
@@ -172,8 +228,31 @@ class C11(Property):
         # idempotence: updating once more with the last ontology changes nothing
         before = full(A)
         last = build_ontology(case['onts'][case['order'][-1]])
-        A.update(last)
-        res['idempotent'] = full(A) == before
+        try:
+            A.update(last)
+            res['idempotent'] = full(A) == before
+        except Exception as ex:
+            res['idempotent'] = 'raised:' + type(ex).__name__
+        # an older, compatible ontology is ignored: updating with the ontology we started from changes nothing
+        try:
+            A.update(build_ontology(case['onts'][case['order'][0]]))
+            res['older_ignored'] = full(A) == before
+        except Exception as ex:
+            res['older_ignored'] = 'raised:' + type(ex).__name__
+        # what an update brought in comes back when it is deleted from A and A is updated again from the very same B
+        try:
+            A.update(B)
+            slot = 'et' if B.get_event_type('t') is not None else 'source' if B.get_event_source('/a/') is not None else None
+            if slot == 'et':
+                A.delete_event_type('t')
+            elif slot == 'source':
+                A.delete_event_source('/a/')
+            A.update(B)
+            # A lacked the element, so it must now hold B's definition of it
+            res['restored'] = slot is None or (element_of(A, slot) is not None and
+                                               canon(element_of(A, slot).generate_xml()) == canon(element_of(B, slot).generate_xml()))
+        except Exception as ex:
+            res['restored'] = 'raised:' + type(ex).__name__
         # independence: mutate A, B must not change, and vice versa
         bb = full(B)
         for e in (A.get_event_type('t'), A.get_object_type('ot'), A.get_concept('c.v')):
@@ -226,7 +305,7 @@ class C11(Property):
         if 'err' in r:
             return {'err': r['err'], 'expected_failure': True}
         res = {'ok': self.expected_view(case, r, case['order']), 'untouched': True, 'monotone': True,
-               'idempotent': True, 'b_independent': True, 'a_independent': True}
+               'idempotent': True, 'older_ignored': True, 'restored': True, 'b_independent': True, 'a_independent': True}
         if len(case['order']) == 2:
             rr = replies[1]
             res['reverse'] = {'err': rr['err']} if 'err' in rr else self.expected_view(case, rr, case['order'][::-1])
@@ -250,8 +329,13 @@ class C11(Property):
             return 'the ontology passed to update() was modified'
         if not obs['monotone']:
             return 'an element version decreased during a sequence of updates'
-        if not obs['idempotent']:
-            return 'repeating the update changed the ontology'
+        if obs['idempotent'] is not True:
+            return 'repeating the update changed the ontology or failed (%s)' % obs['idempotent']
+        if obs['older_ignored'] is not True:
+            return 'updating once more with the ontology the sequence started from changed the result or failed (%s)' % obs['older_ignored']
+        if obs['restored'] is not True:
+            return ('after deleting a definition from A, updating A again from the same ontology B does not bring in the '
+                    'definition that B holds (%s)' % obs['restored'])
         if not obs['b_independent'] or not obs['a_independent']:
             return 'the two ontologies are not independent after the update: mutating one changed the other'
         if 'reverse' in obs and isinstance(obs['reverse'], dict) and 'err' not in obs['reverse'] and obs['reverse'] != obs['ok']:
